@@ -246,6 +246,74 @@ def pratt_prefix_chain(owner, parser_struct):
 
 pratt_prefix_chain('ExprParser', 'ExprParser')
 pratt_prefix_chain('Parser', 'Parser')
+ck.declare('G5_postfix_binds_tightest', 'PREFIX a IS [NOT] NULL for the prefix tokens, and a OP b IS [NOT] NULL for every infix operator; both Pratt loops',
+           'the postfix form (documented level 11) applies to the operand next to it: PREFIX (a IS NULL) and a OP (b IS NULL)')
+
+
+def kw(st, name, i):
+    return mk_token(st, Enum('token::TokenKind', P.variant_index('TokenKind', name), {}, variant=name), i)
+
+
+def pratt_postfix(owner, parser_struct):
+    def start(st, toks):
+        st.env['tokens'] = toks[1:]
+        st.env['tokpos'] = 0
+        p = Struct(parser_struct, {}, lazy='P')
+        p.fields[F(parser_struct, 'current')] = toks[0]
+        p.fields[F(parser_struct, 'peeked')] = none('Option<Token>')
+        if parser_struct == 'ExprParser':
+            p.fields[F(parser_struct, 'depth')] = Int(z3.BitVecVal(0, 64), False)
+        return run(st, f'{owner}::parse_expr_bp', [ref(p), Int(z3.BitVecVal(0, 8), False)])
+
+    def kind_of(e, st):
+        return e.load(F('Expr', 'kind'), None, st)
+
+    for negated in (False, True):
+        tail = lambda st, i: [kw(st, 'Is', i)] + ([kw(st, 'Not', i + 1)] if negated else []) + [kw(st, 'Null', i + 1 + negated)]
+        # PREFIX a IS NULL
+        for pre in PREFIX_OP:
+            st = ex.new_state()
+            toks = [kw(st, pre, 0), int_token(st, 0, 1)] + tail(st, 2)
+            res = start(st, toks)
+            ck.note_path_problem(res, f'{owner} {pre} a IS NULL')
+            for r in res:
+                w0 = {'parser': owner, 'postfix': 'IS NOT NULL' if negated else 'IS NULL', 'prefixes': [pre], 'ops': []}
+                if r.status not in ('return', 'panic'):
+                    continue
+                good, top = False, str(r.status)
+                if r.status == 'return' and r.retval.variant == 'Ok':
+                    k = kind_of(r.retval.fields[('Ok', 0)], r.st)
+                    top = str(k.variant)
+                    if k.variant == 'Unary':
+                        inner = kind_of(k.fields[('Unary', 1)].load(r.st), r.st)
+                        good = inner.variant == 'IsNull' and k.fields[('Unary', 0)].variant == PREFIX_OP[pre]
+                ck.require(ex, 'G5_postfix_binds_tightest', r.pc, None, z3.BoolVal(good), lambda mm, w=dict(w0, top=top): w, lambda mm, w: 'postfix-under-prefix')
+        # a OP b IS NULL
+        st = ex.new_state()
+        k = st.fresh('token::TokenKind', 'op0')
+        st.assume(z3.Or([k.disc == z3.BitVecVal(d, 64) for d in OPTOK]))
+        toks = [int_token(st, 0, 0), mk_token(st, k, 1), int_token(st, 1, 2)] + tail(st, 3)
+        res = start(st, toks)
+        ck.note_path_problem(res, f'{owner} a OP b IS NULL')
+        for r in res:
+            rr, m = ex.solver.model(r.pc)
+            if m is None or r.status not in ('return', 'panic'):
+                continue
+            opn = OPTOK[mval(m, k.disc, True)]
+            w0 = {'parser': owner, 'postfix': 'IS NOT NULL' if negated else 'IS NULL', 'prefixes': [], 'ops': [opn]}
+            good, top = False, str(r.status)
+            if r.status == 'return' and r.retval.variant == 'Ok':
+                kk = kind_of(r.retval.fields[('Ok', 0)], r.st)
+                top = str(kk.variant)
+                if kk.variant == 'Binary':
+                    rgt = kind_of(kk.fields[('Binary', 2)].load(r.st), r.st)
+                    lft = kind_of(kk.fields[('Binary', 0)].load(r.st), r.st)
+                    good = rgt.variant == 'IsNull' and lft.variant == 'Literal' and kk.fields[('Binary', 1)].variant == opn
+            ck.require(ex, 'G5_postfix_binds_tightest', r.pc, None, z3.BoolVal(good), lambda mm, w=dict(w0, top=top): w, lambda mm, w: 'postfix-under-infix')
+
+
+pratt_postfix('ExprParser', 'ExprParser')
+pratt_postfix('Parser', 'Parser')
 pratt_prefix('ExprParser', 'ExprParser')
 pratt_prefix('Parser', 'Parser')
 pratt('ExprParser', 'ExprParser', 2, 'G1_grouping')
